@@ -54,6 +54,12 @@ func Scenarios() []gx.Sc {
 		{Name: fmt.Sprintf("lim?ver=0.11.0.0&mrs=%d&vs=963,964,2100,8&ff=100&policy=input&closeany=1", MRS), Q: 3, T: 5},
 		{Name: fmt.Sprintf("lim?ver=0.8.2.0&mrs=%d&vs=998,998,%d,8&parts=0,1,0,1&policy=input", MRS, MRS-71), Q: 3, T: 5},
 	}
+	// a retriable error for one partition while a message of ANOTHER partition waits for space in the broker worker: what
+	// the failed partition gives back is not room in the other partition's batch
+	out = append(out,
+		gx.Sc{Name: "lim?ver=0.11.0.0&mmb=200&vs=6,6,39,39,40&parts=0,0,1,1,1&policy=input&faults=notleader", Q: 2, T: 3},
+		gx.Sc{Name: "lim?ver=0.10.2.0&mmb=200&vs=6,6,73,73,74&parts=0,0,1,1,1&policy=input&faults=notleader", Q: 2, T: 3},
+	)
 	// a systematic layer: five messages per generation, sizes straddling the batch estimate, two partitions,
 	// every trigger kind, latency (policy input) and early close
 	for _, g := range gens {
